@@ -144,18 +144,9 @@ fn enc_float(f: f64, out: &mut Vec<u8>) {
         write_half(h, out);
         return;
     }
-    if f.fract() == 0.0 {
-        // i128 range: approximately ±1.7e38; f64 can represent up to ±1.8e308
-        // Check range before casting to avoid overflow/UB
-        const I128_MAX_F: f64 = i128::MAX as f64;
-        const I128_MIN_F: f64 = i128::MIN as f64;
-        if (I128_MIN_F..=I128_MAX_F).contains(&f) {
-            let i = f as i128;
-            if i as f64 == f {
-                enc_int(i, out);
-                return;
-            }
-        }
+    if let Some(i) = integral_in_int_range(f) {
+        enc_int(i, out);
+        return;
     }
     let h = f16::from_f64(f);
     if h.to_f64() == f {
@@ -391,14 +382,25 @@ fn dec_value(bytes: &[u8], idx: &mut usize) -> Result<Value> {
 }
 
 fn is_exact_int(f: f64) -> bool {
-    if f.is_infinite() || f.is_nan() {
-        return false;
+    integral_in_int_range(f).is_some()
+}
+
+/// Returns the integer value of `f` when `f` is integral and lies inside the integer
+/// range this codec can represent (`i64::MIN ..= u64::MAX`, see `dec_value`).
+///
+/// Integral floats outside that range have no integer encoding: they must stay floats,
+/// otherwise `write_major` would silently truncate them to 64 bits.
+fn integral_in_int_range(f: f64) -> Option<i128> {
+    const INT_MIN_F: f64 = -9_223_372_036_854_775_808.0; // i64::MIN, exactly representable
+    const INT_END_F: f64 = 18_446_744_073_709_551_616.0; // u64::MAX + 1, exactly representable
+    if !f.is_finite() || f.fract() != 0.0 {
+        return None;
     }
-    if f.fract() != 0.0 {
-        return false;
+    if !(INT_MIN_F..INT_END_F).contains(&f) {
+        return None;
     }
     let i = f as i128;
-    i as f64 == f
+    (i as f64 == f).then_some(i)
 }
 
 fn can_fit_f16(f: f64) -> bool {
